@@ -42,6 +42,8 @@ class WbDecWorld(World):
         g = rng.choice([x for x in (8, 16, 32, 64) if x <= dw])
         gb = log2(dw // g)
         aw = rng.range(1, 7) if not rng.chance(0.1) else rng.range(8, 10)
+        if rng.chance(0.04):
+            aw = 0
         feats = rng.subset(FEATS)
         al = rng.choice([0, 0, 1, 2, 3])
         mmaw = max(1, aw + gb)
